@@ -237,6 +237,12 @@ void conn_run(const Plan *p, const CredSet *cs, HonestOut *out,
 	Endpoint *reader = p->closer == 0 ? sv : cl;
 	out->eof_ok = reader->eof_seen && reader->eof_ret == 0;
 	for (int d = 0; d < 2; d++) {
+		/* net effect of all faults on what the receiver saw while handshaking */
+		Pipe *pp = &c->pipe[d];
+		size_t n = out->rd_at_done[d == DIR_C2S ? 1 : 0];
+		out->hs_stream_tampered[d] = n > pp->sent_len || n > pp->wr || (n && memcmp(pp->buf, pp->sent, n) != 0);
+	}
+	for (int d = 0; d < 2; d++) {
 		Pipe *pp = &c->pipe[d];
 		out->nrecs[d] = pp->nrecs < MAX_REC ? pp->nrecs : MAX_REC;
 		memcpy(out->recs[d], pp->recs, sizeof(RecInfo) * (size_t)out->nrecs[d]);
